@@ -84,6 +84,20 @@ RecordsHistory(doPoll, finished) == doPoll \/ finished
 NextIter(iter, doPoll, finished) ==
   IF ~finished /\ doPoll THEN iter + 1 ELSE iter
 
+(* ---- search scale factor (_update_search_stats_, l.2468-2522) ---------- *)
+\* kept as sf2 = 2*log2(search_factor): success *sqrt(2) -> +1, incremental
+\* *2 -> +2, failure *sqrt(1/2) -> -1; reset to 1 (sf2 = 0) when the round of
+\* search_n_try attempts is complete
+NextSearchFactor(sf2, status, scAfter, ntry) ==
+  IF scAfter = ntry THEN 0
+  ELSE IF status = "success" THEN sf2 + 1
+  ELSE IF status = "incremental" THEN sf2 + 2
+  ELSE sf2 - 1
+
+(* ---- mesh overflow counter (_check_mesh_overflow_, l.2553) -------------- *)
+NextOverflows(ovf, good, kBefore, kcap) ==
+  IF good /\ kBefore = kcap THEN ovf + 1 ELSE ovf
+
 (* ---- model-checked bound on consecutive non-progress loop iterations -- *)
 \* (proved tight by TLC on BadsRun, see BadsRun.tla NonProgressBounded)
 NonProgressBound(ntry) == IF ntry >= 1 THEN 2 * ntry - 2 ELSE 0
